@@ -69,8 +69,11 @@ def build_project(n):
     p = workload.new_project(every=4)
     for k in range(n - 1):
         _BUILD[0] += 1
-        how = _BUILD[0] % 5
-        if how == 1:
+        how = _BUILD[0] % 7
+        if how in (5, 6):
+            # application subclasses that are containers of what they hold (empty, hence falsy, and iterable)
+            p.attach_module(workload.containerish_types()[(_BUILD[0] // 7) % 3]())
+        elif how == 1:
             # the owner named at construction (a documented constructor keyword), attached afterwards
             p.attach_module(api.m.Amplifier(parent=p))
         elif how == 2:
